@@ -15,6 +15,7 @@ import copy
 import importlib
 import inspect
 import io
+import warnings
 import contextlib
 import os
 import pkgutil
@@ -488,6 +489,42 @@ def batch_item_consistency(ctx, aotools, rng):
             ctx.close("batch_item:" + name, got, it.astype(got.dtype) if got.shape == it.shape else it, 1e-11 * sc, "batch_item_differs:" + name, {"function": name, "item": i, "stack_depth": k}, scale=sc)
 
 
+def failed_calls_leave_no_trace(ctx, aotools, rng):
+    """Calls that end in a documented exception (a screen too finely sampled to be constructed raises LinAlgError; malformed
+    arguments raise) are calls too: no global state may be different afterwards, and later calls behave as before."""
+    probes = (("PhaseScreenVonKarman", lambda: aotools.PhaseScreenVonKarman(8, 1e-8, 0.2, 100.0, random_seed=1)),
+              ("PhaseScreenKolmogorov", lambda: aotools.PhaseScreenKolmogorov(9, 1e-10, 0.2, 100.0, random_seed=1)),
+              ("circle", lambda: aotools.circle(3.0, 8, (1.0,))),
+              ("zoom", lambda: aotools.zoom(np.ones((4, 4)), 6, 99)),
+              ("binImgs", lambda: aotools.binImgs(np.ones(7), 2)),
+              ("optimal_grouping", lambda: aotools.optimal_grouping(0, 3, np.arange(3.0), np.ones(2))))
+    before_vals = (float(np.asarray(aotools.structure_function_vk(0.0, 0.2, 25.0))), repr(np.asarray(aotools.centre_of_gravity(np.zeros((2, 4, 4)))).tolist()))
+    for name, fn in probes:
+        g0 = global_state(aotools)
+        raised = None
+        try:
+            quiet_call(fn, (), {})
+        except Exception as e:
+            raised = type(e).__name__
+        g1 = global_state(aotools)
+        ctx.case("failed_call:" + name, key=("failed", name), nontrivial=raised is not None, sample={"callable": name, "raised": raised})
+        if raised is None:
+            ctx.count("probe_calls_that_did_not_raise")
+            continue
+        ctx.count("failed_call_checks")
+        ctx.count("global_state_checks")
+        for k in g0:
+            if g0[k] != g1[k] and not (name == "optimal_grouping" and k == "numpy_global_rng"):
+                ctx.fail("global_state_changed:%s:%s:after_exception" % (name, k), "%s raised %s and left global state %s changed" % (name, raised, k), {"callable": name, "raised": raised})
+    with warnings.catch_warnings():
+        warnings.simplefilter("ignore")
+        try:
+            after_vals = (float(np.asarray(aotools.structure_function_vk(0.0, 0.2, 25.0))), repr(np.asarray(aotools.centre_of_gravity(np.zeros((2, 4, 4)))).tolist()))
+        except Exception as e:
+            after_vals = ("raised", repr(e))
+    ctx.check(after_vals == before_vals, "result_depends_on_history:after_failed_call", "calls on degenerate inputs behave differently after an earlier call failed: %r vs %r" % (after_vals, before_vals), None)
+
+
 def seed_objects_untouched(ctx, aotools, rng):
     """Seeds that are objects (SeedSequence, BitGenerator-free sequences, arrays) are arguments too: the same object used for
     two calls gives the same screen twice and is left as it was (SeedSequence.spawn, for one, counts the children it handed out)."""
@@ -541,6 +578,8 @@ def run(ctx, spec):
             check_callable(ctx, aotools, n, public[n], calls, rng, others)
     if spec["shard"] % 4 == 1:
         seed_objects_untouched(ctx, aotools, rng)
+    if spec["shard"] % 4 == 2:
+        failed_calls_leave_no_trace(ctx, aotools, rng)
     for rep in range(spec["reps"]):
         returned_arrays_stay_put(ctx, aotools, rng)
         batch_item_consistency(ctx, aotools, rng)
